@@ -31,6 +31,8 @@ def main() -> int:
         run.add_obligation(True, len(run.proof['theorems']))
         if args.replay:
             return mod.replay(run, args.replay)
+        for old in common.REPLAYS.glob(f'{prop}-*.json'):
+            old.unlink()          # replay files of earlier runs of this check
         mod.check(run)
         return run.finish()
     except common.Broken as err:
